@@ -12,6 +12,7 @@
 #include <set>
 #include <signal.h>
 #include <unistd.h>
+#include <sys/time.h>
 
 namespace gwh {
 using namespace muscle;
@@ -306,13 +307,15 @@ static mj::Value g_summary = mj::Value::Obj();
 // a case that does not end is a violation, not an endless run
 static void OnAlarm(int) {
    if (g_rep.f) {
-      std::string s = "{\"case\":" + mj::ToString(mj::Value::Str(g_rep.current)) + ",\"violations\":[\"watchdog: the gateways did not return within 60 s (hang)\"]}\n{\"summary\":true,\"aborted\":\"watchdog\"}\n";
+      std::string s = "{\"case\":" + mj::ToString(mj::Value::Str(g_rep.current)) + ",\"violations\":[\"watchdog: the gateways did not return within 20 s of CPU time (endless loop)\"]}\n{\"summary\":true,\"aborted\":\"watchdog\"}\n";
       if (write(fileno(g_rep.f), s.data(), s.size()) < 0) {}
    }
    _exit(0);
 }
-inline void Watch(const std::string & what) {g_rep.current = what; g_rep.cases++; alarm(60);}
-inline void InitHarness(const char * reportPath) {g_rep.f = fopen(reportPath, "w"); if (g_rep.f == NULL) {fprintf(stderr, "cannot write %s\n", reportPath); exit(3);} signal(SIGALRM, OnAlarm);}
+// (CPU time of this process, not wall time: a busy machine must not look like a hang; the pipes are in memory, so a case that does not end is a loop)
+inline void ArmTimer(int seconds) {struct itimerval it; memset(&it, 0, sizeof(it)); it.it_value.tv_sec = seconds; (void) setitimer(ITIMER_PROF, &it, NULL);}
+inline void Watch(const std::string & what) {g_rep.current = what; g_rep.cases++; ArmTimer(20);}
+inline void InitHarness(const char * reportPath) {g_rep.f = fopen(reportPath, "w"); if (g_rep.f == NULL) {fprintf(stderr, "cannot write %s\n", reportPath); exit(3);} signal(SIGPROF, OnAlarm);}
 
 // ---------------------------------------------------------------------------------------------- GwAbs, as a monitor
 struct Monitor {
@@ -608,7 +611,7 @@ inline mj::Value CountersJson(const Counters & C) {
 }
 
 // the two modes every program of the family has.  argv: replay <behaviours.ndjson> <report> <hsa> <scra> <nvariants> <seed> <cfg>...
-//                                                       explore <report> <abs trace> <bin trace> <seed> <runs per cfg> <msgs per run> <traced runs per cfg> <cfg>...
+//                                                       explore <report> <abs trace> <bin trace> <seed> <runs per cfg> <msgs per run> <traced runs per cfg> <msgs per traced run> <cfg>...
 inline int CommonMain(int argc, char ** argv, LinkFactory mk) {
    const std::string mode = (argc > 1) ? argv[1] : "";
    if ((mode == "replay")&&(argc >= 9)) {
@@ -625,27 +628,27 @@ inline int CommonMain(int argc, char ** argv, LinkFactory mk) {
          T.replays += C.replays; T.followed += C.followed; T.drifted += C.drifted; T.steps += C.steps; T.ioCalls += C.ioCalls; T.zeroResults += C.zeroResults; T.oneByteResults += C.oneByteResults;
          T.itemsDelivered += C.itemsDelivered; T.bytesMoved += C.bytesMoved; T.messages += C.messages;
       }
-      alarm(0);
+      ArmTimer(0);
       mj::Value s = CountersJson(T); s.set("summary", mj::Value::Bool(true)).set("mode", mj::Value::Str("replay")).set("behaviours", mj::Value::Int((int64_t) behs.size())).set("per_config", per).set("stopped_early", mj::Value::Bool(g_rep.Stop()));
       g_rep.Line(s); fclose(g_rep.f);
       return 0;
    }
-   if ((mode == "explore")&&(argc >= 11)) {
+   if ((mode == "explore")&&(argc >= 12)) {
       InitHarness(argv[2]);
       FILE * absLog = fopen(argv[3], "w"); FILE * binLog = fopen(argv[4], "w");
-      const uint32_t seed = (uint32_t) atoll(argv[5]); const uint32_t runs = atoi(argv[6]), nmsgs = atoi(argv[7]), traced = atoi(argv[8]);
+      const uint32_t seed = (uint32_t) atoll(argv[5]); const uint32_t runs = atoi(argv[6]), nmsgs = atoi(argv[7]), traced = atoi(argv[8]), tmsgs = atoi(argv[9]);
       mj::Value per = mj::Value::Obj(); Counters T;
-      for (int i=9; (i<argc)&&(!g_rep.Stop()); i++) {
+      for (int i=10; (i<argc)&&(!g_rep.Stop()); i++) {
          Counters C;
          for (uint32_t k=0; (k<runs)&&(!g_rep.Stop()); k++) {
             const int style = (k % 8 == 5) ? 1 : ((k % 8 == 6) ? 2 : ((k % 8 == 7) ? 3 : 0));
-            const uint32_t n = (style == 1 || style == 2) ? (nmsgs / 12 + 2) : ((k % 3 == 0) ? nmsgs : (nmsgs / 4 + 1));
+            const uint32_t n = (k < traced) ? tmsgs : ((style == 1 || style == 2) ? (nmsgs / 12 + 2) : ((k % 3 == 0) ? nmsgs : (nmsgs / 4 + 1)));
             RandomRun(mk, argv[i], seed * 1000 + k, n, style, C, (k < traced) ? absLog : NULL, (k < traced) ? binLog : NULL);
          }
          per.set(argv[i], CountersJson(C));
          T.runs += C.runs; T.messages += C.messages; T.ioCalls += C.ioCalls; T.zeroResults += C.zeroResults; T.oneByteResults += C.oneByteResults; T.itemsDelivered += C.itemsDelivered; T.bytesMoved += C.bytesMoved; T.traceLines += C.traceLines; T.tracedRuns += C.tracedRuns;
       }
-      alarm(0);
+      ArmTimer(0);
       if (absLog) fclose(absLog); if (binLog) fclose(binLog);
       mj::Value s = CountersJson(T); s.set("summary", mj::Value::Bool(true)).set("mode", mj::Value::Str("explore")).set("per_config", per).set("stopped_early", mj::Value::Bool(g_rep.Stop()));
       g_rep.Line(s); fclose(g_rep.f);
@@ -669,7 +672,7 @@ inline int CommonMain(int argc, char ** argv, LinkFactory mk) {
          per.set(argv[i], CountersJson(C));
          T.runs += C.runs; T.messages += C.messages; T.ioCalls += C.ioCalls; T.zeroResults += C.zeroResults; T.oneByteResults += C.oneByteResults; T.itemsDelivered += C.itemsDelivered; T.bytesMoved += C.bytesMoved;
       }
-      alarm(0);
+      ArmTimer(0);
       mj::Value s = CountersJson(T); s.set("summary", mj::Value::Bool(true)).set("mode", mj::Value::Str("menu")).set("per_config", per).set("stopped_early", mj::Value::Bool(g_rep.Stop()));
       g_rep.Line(s); fclose(g_rep.f);
       return 0;
